@@ -48,6 +48,13 @@ def leafs(move, out=None):
     return out
 
 
+def fresh_calc(p):
+    if p.get("calc") == "lj":
+        from ase.calculators.lj import LennardJones
+        return LennardJones(sigma=1.5, epsilon=0.01, rc=4.0)
+    return PairPot(p.get("calc", "caching"))
+
+
 def handler(c):
     d = tempfile.mkdtemp(prefix="c07_", dir=c["workdir"])
     try:
@@ -97,11 +104,7 @@ def run_case(c, d):
             data = read_json(io.StringIO(files[k]))
             cls = type(mc)
             mc2 = cls.from_dict(data)
-            calc = PairPot(p.get("calc", "caching")) if p.get("calc") != "lj" else None
-            if calc is None:
-                from ase.calculators.lj import LennardJones
-                calc = LennardJones(sigma=1.5, epsilon=0.01, rc=4.0)
-            mc2.atoms.calc = calc
+            mc2.atoms.calc = fresh_calc(p)
             # user-level callables are not serialised: re-attach the scripted check_move / criteria exactly as in the original run
             rec["step_count_loaded"] = int(mc2.step_count)
             got = []
@@ -114,6 +117,23 @@ def run_case(c, d):
             mc3 = cls.from_dict(data)
             again0 = observe(s2, mc3)
             rec["dict_reusable"] = all(loaded0.get(x) == again0.get(x) for x in ("arrays", "cell", "n", "rng", "step_count", "labels", "N"))
+            # second generation: the rebuilt simulation writes its own restart file; a simulation rebuilt from THAT file continues the same run
+            if c.get("chain", True) and n - k >= 2:
+                j = 2 if (n - k >= 3 and k % 2 == 0) else 1
+                path2 = os.path.join(d, f"restart_gen2_{k}.json")
+                mc4 = cls.from_dict(read_json(io.StringIO(files[k])))
+                mc4.atoms.calc = fresh_calc(p)
+                mc4.default_restart = path2
+                for _ in mc4.srun(j):
+                    pass
+                mc4.file_manager.close() if hasattr(mc4.file_manager, "close") else None
+                with open(path2) as fh:
+                    data2 = read_json(io.StringIO(fh.read()))
+                mc5 = cls.from_dict(data2)
+                mc5.atoms.calc = fresh_calc(p)
+                rec["chain"] = {"j": j, "step_count_loaded": int(mc5.step_count), "got": []}
+                for _ in mc5.srun(n - k - j):
+                    rec["chain"]["got"].append(observe(s2, mc5))
         except Exception as e:  # noqa: BLE001
             import traceback
             rec["error"] = f"{type(e).__name__}: {str(e)[:300]}"
